@@ -31,8 +31,9 @@ Half == <<1, 2>>
 PoolSeq == << L(1), L(12), L(2), L(3), L(5), L(7), L(8), L(9), L(11),                       \* X H S T RX U3 CNOT ISWAP A2
               ControlledOf(L(2), 1), DaggerOf(L(3)), PowerOf(L(2), <<3, 1>>), L(14),            \* c-S  T^+  S^3  XX
               PowerOf(L(1), Half),                                                              \* X^(1/2): the K1 gate
-              DaggerOf(ControlledOf(L(3), 1)), ControlledOf(L(1), 2), PowerOf(DaggerOf(L(4)), <<-2, 1>>), L(10) >>   \* (c-T)^+  cc-X  (SX^+)^-2  A1
-PoolQuick == {1, 3, 5, 6, 7, 9, 10, 11, 12, 14}
+              DaggerOf(ControlledOf(L(3), 1)), ControlledOf(L(1), 2), PowerOf(DaggerOf(L(4)), <<-2, 1>>), L(10),     \* (c-T)^+  cc-X  (SX^+)^-2  A1
+              ControlledOf(L(3), 1) >>                                                          \* c-T: the same wrapper, arity and (no) parameters as c-S
+PoolQuick == {1, 3, 5, 6, 7, 9, 10, 11, 12, 14, 19}
 PoolAll == 1..Len(PoolSeq)
 
 \* ---- meaning of a step --------------------------------------------------------------------------------------
